@@ -120,7 +120,10 @@ impl AstLowering {
             if m.params.len() != 1 {
                 return false;
             }
-            m.params[0].node.ty.node == *underlying
+            // Syntactic match on the written type. `ast::Type` equality also compares the source spans of generic
+            // arguments, so `List[str]` at the parameter never equalled `List[str]` at the declaration and the hook
+            // of a newtype over a generic type was never selected; compare the printed types instead.
+            m.params[0].node.ty.node.to_string() == underlying.to_string()
         }
 
         // Candidate: static method named from_* with (underlying) -> Result[T, E]
